@@ -11,7 +11,8 @@ CLAUSES = {
     "C02": {"solutions", "divides_by_zero"},
     "C04": {"roundtrip"},
     "C06": {"raises_after_can_apply", "result_not_expression", "can_apply_raises", "can_apply_modifies_tree",
-            "can_apply_not_deterministic", "find_nodes_disagrees", "r_index_wrong", "find_node_not_first"},
+            "can_apply_not_deterministic", "find_nodes_disagrees", "r_index_wrong", "find_node_not_first",
+            "answer_depends_on_rule_history"},
     "C07": STRUCT | {"wf", "arity"},
 }
 
@@ -75,6 +76,8 @@ def signature(prop, ev, clauses):
     cl = ",".join(sorted(c for c in clauses))
     if ev["typ"] == "probe":
         return "%s|%s|%s%s|probe" % (prop, cl, ev["rule"], ":" + ev["opt"] if ev["opt"] else "")
+    if ev["typ"] == "reprobe":
+        return "%s|%s|after %s" % (prop, cl, ev["rule"].split("@")[0])
     if ev["typ"] == "print":
         return "%s|%s|print|%s" % (prop, cl, parsefam.classify(ev["text"]))
     try:
